@@ -139,6 +139,7 @@ fn gen(seed: u64) -> Params {
 
 pub fn swarm() -> Swarm {
     Swarm {
+        alloc_modes: true,
         stalls: true,
         stall_max_ns: 3_000_000,
         est_len: 4000,
